@@ -12,6 +12,8 @@ RULE = ("kinds: gen (PlatePermutation / SampleSegregating / Pairwise through gen
         "experiments; every rng / heappop / argsort answer of the real run is recorded and fed to the model; full row lists (order, "
         "plate labels, masks) compared.  Non-trivial: at least one unobserved experiment; distinct by case description.")
 THEOREMS = {
+    "C11_model_is_source_generate_plates": "the hand-written wrapper model `wrap f` equals, for every inner generator f (in particular the shipped ones: generate_plates g), every screen and every answer stream, the Gallina translation of the whole method RetrospectivePlateGenerator.generate_plates regenerated from /repo's current core.py on this run (Generated/SrcRetro.v)",
+    "C11_model_is_source_smooth_plates": "likewise for RetrospectivePlateSmoother.smooth_plates and every inner smoother (in particular smooth_plates sm for every shipped smoother)",
     "C11_generator_conserves": "every shipped generator, any oracle: generate_plates = Ok out -> out = new ++ observed input rows (unchanged), new all unobserved, new minus plate labels is a Permutation of the unobserved input rows minus plate labels",
     "C11_relabel_conserves": "generic: ANY relabelling of plates (any label oracle) leaves rows-minus-label unchanged, in order",
     "C11_smoother_sub": "every shipped smoother, any oracle: smooth_plates = Ok out -> out = new ++ observed input rows, new all unobserved, exists rest with Permutation (strip new ++ rest) (strip unobserved input)",
